@@ -240,6 +240,39 @@ theorem natLt_irrefl (a : Text) : natLt a a = false := GoSnaps.natLt_irrefl a
 theorem sortNat_sorted (l : List Text) (ht : TotalOn l) : allPairsOrdered (sortNat l) = true :=
   (allPairsOrdered_iff _).mpr (sortNat_pairwise l ht)
 
+/-- every two ids are comparable when the comparator is total on them (the second half of the
+    check; invariant under permutation: `pairwiseComparable_perm`) -/
+theorem pairwiseComparable_of_totalOn (l : List Text) (ht : TotalOn l) :
+    pairwiseComparable l = true := GoSnaps.pairwiseComparable_of_totalOn l ht
+
+/-- so under `TotalOn` the sort step of `examineSnaps` is never `.unsupportedOrder` -/
+theorem sort_supported (l : List Text) (ht : TotalOn l) :
+    (allPairsOrdered (sortNat l) && pairwiseComparable (sortNat l)) = true :=
+  sort_check_passes l ht
+
+/-- **`natLt` is not total on realistic ids**: `"T01 - 1"` vs `"T1 - 1"` — the digit runs are
+numerically equal, differ only in a leading zero, and are followed by identical text, so
+`natural.Less` is false both ways (`TotalOn` fails, `slices.SortFunc`'s result is unspecified, and
+the model answers `.unsupportedOrder`).  The shorter pair `"T01"`/`"T1"` does NOT show it: there
+one side is exhausted after the digit run and the lexical fallback decides. -/
+theorem natLt_not_total :
+    natLt [84, 48, 49, 32, 45, 32, 49] [84, 49, 32, 45, 32, 49] = false ∧
+    natLt [84, 49, 32, 45, 32, 49] [84, 48, 49, 32, 45, 32, 49] = false ∧
+    pairwiseComparable [[84, 48, 49, 32, 45, 32, 49], [84, 49, 32, 45, 32, 49]] = false ∧
+    natLt [84, 48, 49] [84, 49] = true := by decide
+
+/-- a file holding `[TestB - 1]`, `[Test01 - 1]`, `[Test1 - 1]` (all registered) and asked to be
+    sorted: the old check `allPairsOrdered` alone passes, the model now refuses it -/
+example :
+    let e1 : Entry := ⟨[91, 84, 101, 115, 116, 66, 32, 45, 32, 49, 93], [120]⟩
+    let e2 : Entry := ⟨[91, 84, 101, 115, 116, 48, 49, 32, 45, 32, 49, 93], [121]⟩
+    let e3 : Entry := ⟨[91, 84, 101, 115, 116, 49, 32, 45, 32, 49, 93], [122]⟩
+    let p : Text := [47, 115, 47, 97, 46, 115, 110, 97, 112]
+    allPairsOrdered (sortNat [tidOf e1, tidOf e2, tidOf e3]) = true ∧
+    examineSnaps {} [(p, render [e1, e2, e3])]
+      [((p, [84, 101, 115, 116, 66]), 1), ((p, [84, 101, 115, 116, 48, 49]), 1), ((p, [84, 101, 115, 116, 49]), 1)]
+      [] [p] [] 1 true true = .unsupportedOrder := by decide
+
 /-- … and it is the only pairwise-ordered permutation of `l` -/
 theorem sortNat_unique (l l' : List Text) (ht : TotalOn l) (hp : l'.Perm l)
     (hs : allPairsOrdered l' = true) : l' = sortNat l :=
